@@ -8,6 +8,7 @@ import Orx.GenThms.Range
 import Orx.GenThms.Iter
 import Orx.GenThms.Ctor
 import Orx.GenThms.Defaults
+import Orx.GenThms.Loops
 /-! # C11 try_get_len / has_more are truthful; 'No' is definitive -/
 namespace Orx.Props.C11
 open Orx Orx.KS
@@ -112,5 +113,12 @@ theorem source_has_more (len a b c : Nat) (evs dr) (init : Option Nat) (R Y : Na
         (ist R Y C (ievs ++ [.ld .C .seqcst (if C then 1 else 0)] ++ (if C = false ∧ init.isSome then [.ld .R .acquire R] else []))) :=
   ⟨slice_has_more len c evs dr, vec_has_more len c evs dr, arr_has_more len c evs dr, range_has_more a b c evs dr,
    iter_has_more init R Y C ievs⟩
+
+/-- the sequential views `values()` / `ids_and_values()` define `next` only: in particular no `size_hint`, so wrapping one of
+them into a concurrent iterator again (`inner.values().into_con_iter()`) gives an unknown-size source (`Maybe`), never a
+length that other consumers of `inner` could falsify -/
+theorem source_views_define_next_only :
+    GenL.Values.iterator_overrides = ["next"] ∧ GenL.IdsAndValues.iterator_overrides = ["next"] :=
+  GenThms.Loops.wrappers_override_only_next
 
 end Orx.Props.C11
